@@ -456,6 +456,26 @@ def fold(node: ast.AST, m: Mod, cls: str | None = None, _depth: int = 0) -> Any:
         return out
     if isinstance(node, ast.Lambda):
         return Lambda(node)
+    if isinstance(node, (ast.DictComp, ast.ListComp, ast.SetComp, ast.GeneratorExp)):
+        # a comprehension over constant iterables: unrolled, the loop variables substituted as constants into each element
+        envs = [{}]
+        for g in node.generators:
+            if g.is_async:
+                raise NotConst(un(node))
+            nxt = []
+            for e in envs:
+                for item in list(fold(_subst_consts(g.iter, e), m, cls, _depth + 1)):
+                    e2 = dict(e)
+                    _bind_target(g.target, item, e2, node)
+                    if all(fold(_subst_consts(c, e2), m, cls, _depth + 1) for c in g.ifs):
+                        nxt.append(e2)
+                if len(nxt) > 5000:
+                    raise NotConst("comprehension too large")
+            envs = nxt
+        if isinstance(node, ast.DictComp):
+            return {fold(_subst_consts(node.key, e), m, cls, _depth + 1): fold(_subst_consts(node.value, e), m, cls, _depth + 1) for e in envs}
+        vals = [fold(_subst_consts(node.elt, e), m, cls, _depth + 1) for e in envs]
+        return set(vals) if isinstance(node, ast.SetComp) else vals
     if isinstance(node, ast.UnaryOp):
         v = f(node.operand)
         if isinstance(node.op, ast.USub):
@@ -493,7 +513,101 @@ def fold(node: ast.AST, m: Mod, cls: str | None = None, _depth: int = 0) -> Any:
             return type(())(f(node.args[0])) if d == "tuple" else list(f(node.args[0]))
         if d == "str" and not node.args:
             return ""
+        if d == "range" and 1 <= len(node.args) <= 3 and not node.keywords:
+            return list(range(*[f(a) for a in node.args]))
     raise NotConst(un(node))
+
+
+class _SubstConsts(ast.NodeTransformer):
+    def __init__(self, env: dict[str, Any]):
+        self.env = env
+
+    def visit_Name(self, n: ast.Name):
+        if isinstance(n.ctx, ast.Load) and n.id in self.env and isinstance(self.env[n.id], (int, float, str, bool, type(None))):
+            return ast.copy_location(ast.Constant(self.env[n.id]), n)
+        return n
+
+    def visit_Lambda(self, n: ast.Lambda):
+        # `lambda x, k=k: ...` inside a comprehension binds the loop variable as a default: the parameter is dropped, its uses become the constant
+        args = n.args
+        pos = list(args.args)
+        dfl = list(args.defaults)
+        keep_pos, keep_dfl = [], []
+        first_d = len(pos) - len(dfl)
+        shadow = set()
+        for i, a in enumerate(pos):
+            d = dfl[i - first_d] if i >= first_d else None
+            if d is not None and isinstance(d, ast.Name) and d.id == a.arg and a.arg in self.env:
+                continue
+            if a.arg in self.env:
+                shadow.add(a.arg)
+            keep_pos.append(a)
+            if d is not None:
+                keep_dfl.append(self.visit(d))
+        inner = _SubstConsts({k: v for k, v in self.env.items() if k not in shadow})
+        new = ast.Lambda(ast.arguments(posonlyargs=args.posonlyargs, args=keep_pos, vararg=args.vararg, kwonlyargs=args.kwonlyargs,
+                                       kw_defaults=args.kw_defaults, kwarg=args.kwarg, defaults=keep_dfl), inner.visit(clone(n.body)))
+        return ast.copy_location(new, n)
+
+
+class _FoldConsts(ast.NodeTransformer):
+    """folds what became constant after a substitution: arithmetic on number literals, literal parts of f-strings"""
+
+    def visit_BinOp(self, n: ast.BinOp):
+        self.generic_visit(n)
+        if isinstance(n.left, ast.Constant) and isinstance(n.right, ast.Constant) and type(n.op) in _BINOPS \
+                and isinstance(n.left.value, (int, float, str)) and isinstance(n.right.value, (int, float, str)) \
+                and not isinstance(n.left.value, bool) and not isinstance(n.right.value, bool):
+            try:
+                v = _BINOPS[type(n.op)](n.left.value, n.right.value)
+            except Exception:       # noqa: BLE001
+                return n
+            if isinstance(v, (int, float, str)) and (not isinstance(v, (int, float)) or abs(v) < 10**18):
+                return ast.copy_location(ast.Constant(v), n)
+        return n
+
+    def visit_UnaryOp(self, n: ast.UnaryOp):
+        self.generic_visit(n)
+        if isinstance(n.op, ast.USub) and isinstance(n.operand, ast.Constant) and isinstance(n.operand.value, (int, float)) and not isinstance(n.operand.value, bool):
+            return ast.copy_location(ast.Constant(-n.operand.value), n)
+        return n
+
+    def visit_JoinedStr(self, n: ast.JoinedStr):
+        self.generic_visit(n)
+        vals: list[ast.expr] = []
+        for v in n.values:
+            lit = None
+            if isinstance(v, ast.Constant) and isinstance(v.value, str):
+                lit = v.value
+            elif isinstance(v, ast.FormattedValue) and v.conversion == -1 and v.format_spec is None and isinstance(v.value, ast.Constant) \
+                    and isinstance(v.value.value, (int, str)) and not isinstance(v.value.value, bool):
+                lit = str(v.value.value)
+            if lit is not None and vals and isinstance(vals[-1], ast.Constant):
+                vals[-1] = ast.Constant(vals[-1].value + lit)
+            elif lit is not None:
+                vals.append(ast.Constant(lit))
+            else:
+                vals.append(v)
+        n.values = vals
+        return n
+
+
+def _subst_consts(node: ast.AST, env: dict[str, Any]) -> ast.AST:
+    if not env:
+        return node
+    out = _FoldConsts().visit(_SubstConsts(env).visit(clone(node)))
+    ast.fix_missing_locations(out)
+    return out
+
+
+def _bind_target(t: ast.AST, v: Any, env: dict[str, Any], where: ast.AST) -> None:
+    if isinstance(t, ast.Name):
+        env[t.id] = v
+    elif isinstance(t, (ast.Tuple, ast.List)) and len(t.elts) == len(tuple(v)):
+        for tt, vv in zip(t.elts, tuple(v)):
+            _bind_target(tt, vv, env, where)
+    else:
+        raise NotConst(un(where))
 
 
 def _weekday(name: str) -> int:
